@@ -129,6 +129,9 @@ fn batch_size(rng: &mut Rng, law: u8) -> u16 {
 }
 
 fn entry_steps(rng: &mut Rng) -> Vec<(bool, u8, u64)> {
+    if g::NC == 0 {
+        return Vec::new();
+    }
     let n = if rng.chance(1, 3) { rng.range(2, 4) } else { 1 };
     (0..n).map(|_| (rng.chance(3, 5), rng.below(g::NC as u64) as u8, rng.next_u64())).collect()
 }
@@ -151,7 +154,8 @@ pub fn gen_op(rng: &mut Rng, cfg: &Config, class: usize, out: &mut Vec<Op>) {
                 0 | 3 => g::EXTEND_SITES.len(),
                 1 => g::CLONED_SITES.len(),
                 _ => g::ROWS_SITES.len(),
-            };
+            }
+            .max(1);
             out.push(Op::Extend {
                 slot,
                 how,
